@@ -52,7 +52,7 @@ UNIVERSES = {
     "python": dict(ids=("py", "wfpy"), modes=("ok", "raise", "misskey", "arity", "none"), codes=(0,)),
     "python-cf": dict(ids=("py", "wfpy"), modes=("ok", "raise"), codes=(0,)),
     "python-cf-full": dict(ids=("py", "wfpy"), modes=("ok", "okdict", "raise", "misskey", "none"), codes=(0,)),
-    "shell": dict(ids=("sh", "wfsh"), modes=("ok",), codes=(0, 1, 3)),
+    "shell": dict(ids=("sh", "wfsh"), modes=("ok",), codes=(0, 1, 3, 9)),  # 9 = the process kills itself with SIGKILL
     "const": dict(ids=("false", "exit3"), modes=("ok",), codes=(0,)),
     "mixed-small": dict(ids=("py", "sh", "wfboth"), submit=("wfboth",), modes=("ok", "raise"), codes=(0, 3)),
     "mixed": dict(ids=("py", "sh", "wfboth"), modes=("ok", "raise", "misskey"), codes=(0, 3)),
